@@ -97,8 +97,6 @@ theorem near_of' (a : Nat) (q : ℚ) (ε : ℚ) (h1 : finiteB a = true) (h2 : |r
   push_cast at this ⊢
   exact this
 
-variable (B : Build) (hB : B.fastmath = true)
-include hB
 
 /-- the quadratic branch -/
 theorem hlg_low (x' t : Nat) (hx : Finite x') (ht : Finite t ∧ |toReal t - 1 / 3| ≤ 1 / 10 ^ 7) (h0 : 0 ≤ toReal x') (h1 : toReal x' ≤ 1 / 2) :
@@ -158,7 +156,17 @@ theorem hlg_tail (e hb c12 : Nat) (dv : ℝ) (he2 : Finite e) (he3 : |toReal e -
   have : ud * (24 / 12) ≤ (1 / 10 ^ 7) * (24 / 12) := mul_le_mul_of_nonneg_right hud (by norm_num)
   linarith
 
-theorem hlg_to_linear : CurveWithinF (arib_b67_inverse_oetf B) hlgInvSpec := by
+/-- what the HLG inverse OETF needs from `expf`: relative accuracy 1e-5 on `[-85, 85]` -/
+def ExpOracle (B : Build) : Prop :=
+  ∀ d : Nat, Finite d → |toReal d| ≤ 85 → ∃ e, expf B d = .ok e ∧ Finite e ∧ |toReal e - Real.exp (toReal d)| ≤ (1 / 10 ^ 5) * Real.exp (toReal d)
+
+theorem fast_oracle_exp (B : Build) (hB : B.fastmath = true) : ExpOracle B := by
+  intro d hd hD
+  have hpe : expf B d = expfFast B.fma d := by unfold expf; rw [if_pos hB]
+  obtain ⟨e, he1, he2, he3⟩ := Expf.expf_close B.fma d hd hD
+  exact ⟨e, by rw [hpe]; exact he1, he2, he3⟩
+
+theorem hlg_to_linear_o (B : Build) (ho : ExpOracle B) : CurveWithinB (arib_b67_inverse_oetf B) hlgInvSpec (3 / 10 ^ 5) := by
   obtain ⟨z1, z2, h1c, h2c, t1, t2, w1, w2, a1, a2, b1, b2, c1, c2, c3⟩ := cert_hlg
   have hu' : u = 1 / 16777216 := u_val
   have he' : eta ≤ 1 / 10 ^ 40 := eta_le
@@ -180,12 +188,12 @@ theorem hlg_to_linear : CurveWithinF (arib_b67_inverse_oetf B) hlgInvSpec := by
       have := (le_iff x' _ hxf fh).mp hle
       rw [hxv, vh] at this; push_cast at this; linarith
     obtain ⟨ft, vt⟩ := near_of' _ _ _ t1 t2
-    obtain ⟨hr1, hr2⟩ := hlg_low B hB x' _ hxf ⟨ft, by push_cast at vt; exact vt⟩ (by rw [hxv]; exact h0) (by rw [hxv]; exact hXle)
+    obtain ⟨hr1, hr2⟩ := hlg_low x' _ hxf ⟨ft, by push_cast at vt; exact vt⟩ (by rw [hxv]; exact h0) (by rw [hxv]; exact hXle)
     refine ⟨_, rfl, hr1, ?_⟩
     rw [hxv] at hr2
     unfold hlgInvSpec
     rw [if_pos hXle]
-    refine lt_of_le_of_lt hr2 ?_; norm_num
+    refine le_trans hr2 ?_; norm_num
   · rw [if_neg hle]
     have hXgt : 1 / 2 < X := by
       by_contra hc
@@ -218,22 +226,26 @@ theorem hlg_to_linear : CurveWithinF (arib_b67_inverse_oetf B) hlgInvSpec := by
     have hd6 : |dv - sv / toReal HA| ≤ 1 / 10 ^ 6 := by refine le_trans hde ?_; nlinarith
     have hdabs : |dv| ≤ 85 := by refine le_trans hdb.2 ?_; nlinarith
     -- e = expf d
-    have hpe : expf B (div (sub x' HC) HA) = expfFast B.fma (div (sub x' HC) HA) := by unfold expf; rw [if_pos hB]
-    obtain ⟨e, he1, he2, he3⟩ := Expf.expf_close B.fma _ hdb.1 hdabs
-    rw [hpe, he1]
+    obtain ⟨e, he1, he2, he3⟩ := ho _ hdb.1 hdabs
+    rw [he1]
     simp only [Out.bind]
     have hdv3 : |dv| ≤ 3 := by refine le_trans hdb.2 ?_; nlinarith
     have hbabs : |toReal HB| ≤ 1 := by rw [abs_le]; constructor <;> linarith
     obtain ⟨f12, v12⟩ := val_of _ _ w1 w2
-    obtain ⟨hrf, hadd6, hr6⟩ := hlg_tail B hB e HB C.arib_b67_inverse_oetf_f4 dv he2 he3 hdv3 fb hbabs f12 (by rw [v12]; norm_num)
+    obtain ⟨hrf, hadd6, hr6⟩ := hlg_tail e HB C.arib_b67_inverse_oetf_f4 dv he2 he3 hdv3 fb hbabs f12 (by rw [v12]; norm_num)
     refine ⟨_, rfl, hrf, ?_⟩
     have := hlg_real X (toReal HC) (toReal HA) (toReal HB) sv dv (toReal e) _ _ hXgt.le h1 vc' va' vb' hs7 hd6 he3 hadd6 hr6
     unfold hlgInvSpec
     rw [if_neg (by linarith)]
-    refine lt_of_le_of_lt this ?_; norm_num
+    exact this
+
+theorem hlg_to_linear (B : Build) (hB : B.fastmath = true) : CurveWithinF (arib_b67_inverse_oetf B) hlgInvSpec := by
+  intro x hxw hx h0 h1
+  obtain ⟨r, h2, h3, h4⟩ := hlg_to_linear_o B (fast_oracle_exp B hB) x hxw hx h0 h1
+  exact ⟨r, h2, h3, lt_of_le_of_lt h4 (by norm_num)⟩
 
 /-- **C03, HLG gamma -> linear through the dispatch** -/
-theorem hlg_to_linear_curve : ∃ f, toLinearFn B .HybridLogGamma = .ok f ∧ CurveWithinF f hlgInvSpec :=
+theorem hlg_to_linear_curve (B : Build) (hB : B.fastmath = true) : ∃ f, toLinearFn B .HybridLogGamma = .ok f ∧ CurveWithinF f hlgInvSpec :=
   ⟨_, rfl, hlg_to_linear B hB⟩
 
 end C03
